@@ -455,6 +455,8 @@ class Engine:
             return z3.If(a.t, 1, 0) == b.t
         if a.k == "int" and b.k == "bool":
             return a.t == z3.If(b.t, 1, 0)
+        if a.k != b.k and "opaque" in (a.k, b.k) and ({a.k, b.k} & {"int", "bool"}):
+            return self.as_int(a) == self.as_int(b)         # int-like unmodelled value against an integer
         if a.k != b.k:
             if {a.k, b.k} <= {"int", "float"}:
                 fa, fb = self.to_float(a), self.to_float(b)
@@ -492,6 +494,9 @@ class Engine:
             return v.t
         if v.k == "bool":
             return z3.If(v.t, 1, 0)
+        if v.k == "opaque":
+            fn_ = z3.Function("intval_" + v.cls, opaque_sort(v.cls), z3.IntSort())     # the integer value of an int-like object
+            return fn_(v.t)
         raise OutOfReach(f"{self.c.key}: int expected, got {v.k}")
 
     def is_subclass(self, exc: str, base: str) -> bool:
@@ -598,6 +603,9 @@ class Engine:
                 if self.branch(obj.t[0], f"nonestore{getattr(t, 'lineno', 0) - self.x.lineno}"):
                     raise PyRaise("AttributeError")
                 obj = obj.t[1]
+            if obj.k == "opaque":
+                self.st.calls.setdefault("setattr:" + ast.unparse(t), []).append({"value": v})
+                return          # attribute of an unmodelled object: no modelled state changes (ghost log only)
             if obj.k != "obj":
                 raise OutOfReach(f"{self.c.key}: attribute store on {obj.k}")
             srt = self.reg.field_sort(obj.cls, t.attr)
@@ -609,6 +617,13 @@ class Engine:
                 if self.branch(v.t[0], "unpacknone"):
                     raise PyRaise("TypeError")
                 v = v.t[1]
+            if v.k == "opaque":
+                # unpacking an unmodelled sequence: wrong length raises ValueError, otherwise arbitrary elements
+                if self.choose(f"unpack{getattr(t, 'lineno', 0) - self.x.lineno}", ["ok", "ValueError"]) == 1:
+                    raise PyRaise("ValueError")
+                mk = (lambda: V("str", z3.String(fresh_name("elem")))) if v.cls == "StrList" else \
+                    (lambda: V("opaque", z3.Const(fresh_name("elem"), opaque_sort("Any")), "Any"))
+                v = mk_tuple([mk() for _ in t.elts])
             if v.k != "tuple" or len(v.t) != len(t.elts):
                 raise OutOfReach(f"{self.c.key}: unpacking {v.k}")
             for tt, vv in zip(t.elts, v.t):
@@ -770,7 +785,15 @@ class Engine:
         if spec is None:
             raise OutOfReach(f"{self.c.key}: while loop #{ordn} has no invariant")
         lab = f"L{ordn}"
-        self._loop_head(s, spec, lab, None)
+        st = self.st
+        genv0 = {}
+        for k, srcg in spec.get("ghost_init", {}).items():
+            genv0[k] = self.clause_val(srcg, st, self.entry, genv0)
+        self._loop_head(s, spec, lab, {"init": genv0})
+        genv = {k: self._havoc_value(v, k) for k, v in genv0.items()}
+        for inv in spec["inv"]:
+            st.pc.append(self.clause_bool(inv, st, self.entry, genv))
+        n_before = {k: len(v) for k, v in st.calls.items()}
         # assume invariant holds, decide enter/exit
         c = self.truth(self.ev(s.test))
         if self.branch(c, lab + "c"):
@@ -779,10 +802,17 @@ class Engine:
             except _Continue:
                 pass
             except _Break:
+                st.ghost[f"L{ordn}_left_early"] = z3.IntVal(1)
                 return
-            self._loop_preserve(spec, lab, {})
+            genv2 = dict(genv)
+            for k, srcg in spec.get("ghost_step", {}).items():
+                genv2[k] = self.clause_val(srcg, st, self.entry, genv)
+            self._loop_preserve(spec, lab, genv2)
             raise PathAbort()
         else:
+            st.ghost[f"L{ordn}_left_early"] = z3.IntVal(0)
+            for k, v in genv.items():
+                st.env[k] = v          # ghost values stay visible to the postcondition
             self.exec_block(s.orelse)
 
     def _collect_effects(self, body):
@@ -971,6 +1001,7 @@ class Engine:
             except _Continue:
                 pass
             except _Break:
+                st.ghost[f"L{ordn}_left_early"] = z3.IntVal(1)      # ghost: the loop was left by `break` before exhausting its iterable
                 return
             genv2 = {"_i": mk_int(gi + 1)}
             if it["kind"] == "bytes":
@@ -990,6 +1021,7 @@ class Engine:
                 st.pc.append(genv["_done"].t == it["seq"])
             # keep ghost values visible to clauses evaluated after the loop (e.g. hints)
             self._after_loop_env = genv
+            st.ghost[f"L{ordn}_left_early"] = z3.IntVal(0)
             self.exec_block(s.orelse)
 
     def ev_iter(self, node) -> dict:
@@ -1039,6 +1071,13 @@ class Engine:
             if rev:
                 return {"kind": "ilist", "len": n, "elem": lambda i: mk_int(a[n - 1 - i])}
             return {"kind": "ilist", "len": n, "elem": lambda i: mk_int(a[i])}
+        if v.k == "opaque":
+            n_ = z3.Int(fresh_name("n_items"))
+            self.assume(n_ >= 0)
+            strs = v.cls == "StrList"
+            return {"kind": "opaque", "len": n_,
+                    "elem": (lambda i: V("str", z3.String(fresh_name("item")))) if strs else
+                            (lambda i: V("opaque", z3.Const(fresh_name("item"), opaque_sort("Any")), "Any"))}
         raise OutOfReach(f"{self.c.key}: iteration over {v.k}")
 
     # ------------------------------------------------------------------ expressions
@@ -1154,6 +1193,8 @@ class Engine:
                 return self.pyval(getattr(obj.t, n.attr))
             except AttributeError:
                 raise OutOfReach(f"py attr {n.attr}")
+        if obj.k == "opaque" and d is not None and ("attr:" + d) in self.c.externals:
+            return self.ext_result(self.c.externals["attr:" + d], d)
         if obj.k == "opaque":
             # attribute of an unmodelled object: an opaque pure read (same value for the same object and attribute)
             fn_ = z3.Function(f"attr_{n.attr}", opaque_sort(obj.cls), opaque_sort("Any"))
@@ -1319,8 +1360,17 @@ class Engine:
                 f = {ast.Add: z3.fpAdd, ast.Sub: z3.fpSub, ast.Mult: z3.fpMul, ast.Div: z3.fpDiv}[type(op)]
                 return mk_float(f(RNE, fa, fb))
             raise OutOfReach("float op")
-        if a.k == "opaque" and b.k == "opaque" and isinstance(op, ast.Add):
+        if a.k == "bytes" and b.k == "opaque" and isinstance(op, ast.Add):
+            return mk_bytes(z3.Concat(a.t, z3.Const(fresh_name("byteslike"), IntSeq)))    # bytes + bytes-like object
+        if (a.k == "opaque") != (b.k == "opaque") and (a.k == "opaque" or b.k == "opaque"):
+            o_ = a if a.k == "opaque" else b
+            return V("opaque", z3.Const(fresh_name("binop"), opaque_sort(o_.cls)), o_.cls)     # operation on an unmodelled value
+        if a.k == "opaque" and b.k == "opaque":
             return V("opaque", z3.Const(fresh_name("cat"), opaque_sort(a.cls)), a.cls)   # concatenation of unmodelled lists
+        if a.k == "str" and b.k == "str" and isinstance(op, ast.Add):
+            return V("str", z3.Concat(a.t, b.t))
+        if a.k == "str" and isinstance(op, ast.Mod):
+            return V("str", z3.String(fresh_name("fmt")))
         if a.k == "bytes" and b.k == "bytes" and isinstance(op, ast.Add):
             return mk_bytes(z3.Concat(a.t, b.t))
         if a.k == "bytes" and b.k in ("int", "bool") and isinstance(op, ast.Mult):
@@ -1586,13 +1636,22 @@ class Engine:
             return z3.Or([self.veq(item, e) for e in cont.t]) if cont.t else z3.BoolVal(False)
         if cont.k == "bytes" and item.k in ("int", "bool"):
             return z3.Contains(cont.t, z3.Unit(self.as_int(item)))
+        if cont.k == "str" and item.k == "str":
+            return z3.Contains(cont.t, item.t)
         if cont.k == "obj":
             cc = self.reg.method_contract(cont.cls, "__contains__")
             if cc is not None:
                 return self.truth(self.contract_call(cc, cont, [item], ast.Call(func=ast.Name(id="contains"), args=[], keywords=[])))
+        if cont.k == "py" and item.k in ("opaque", "str") and not (item.k == "str" and z3.is_string_value(z3.simplify(item.t))):
+            return z3.Bool(fresh_name("member_of"))       # membership of a symbolic key in a live table: unknown
         if cont.k == "py" and isinstance(cont.t, (set, frozenset, tuple, list)):
             return z3.Or([self.veq(item, self.pyval(e)) for e in cont.t]) if cont.t else z3.BoolVal(False)
         raise OutOfReach(f"{self.c.key}: `in` on {cont.k}")
+
+    def ev_Dict(self, n):
+        for v_ in n.values:
+            self.ev(v_)
+        return V("opaque", z3.Const(fresh_name("dict"), opaque_sort("Dict")), "Dict")
 
     def ev_Set(self, n):
         return V("py", frozenset()) if not n.elts else mk_tuple([self.ev(e) for e in n.elts])
@@ -1622,6 +1681,10 @@ class Engine:
                     self.assume(z3.And(base.t == z3.Concat(pfx, t, sfx), z3.Length(pfx) == lo,
                                        z3.Length(t) == z3.If(hi > lo, hi - lo, 0)))
                 return mk_bytes(t)
+            if base.k == "str":
+                return V("str", z3.String(fresh_name("substr")))      # an unspecified string (over-approximation)
+            if base.k == "opaque":
+                return V("opaque", z3.Const(fresh_name("slice"), opaque_sort(base.cls)), base.cls)
             if base.k == "tuple":
                 lo = self._const_idx(sl.lower, 0, len(base.t))
                 hi = self._const_idx(sl.upper, len(base.t), len(base.t))
@@ -1659,6 +1722,11 @@ class Engine:
             if self.spec_mode:
                 return mk_int(a[i])
             return mk_int(a[z3.If(i < 0, nn + i, i)])
+        if base.k == "py" and idx.k in ("str", "opaque") and not (idx.k == "str" and z3.is_string_value(z3.simplify(idx.t))):
+            # lookup in a live table (enum class, dict) by a symbolic key: KeyError or some unmodelled member
+            if not self.spec_mode and self.choose(f"lookup{getattr(n, 'lineno', 0) - self.x.lineno}", ["ok", "KeyError"]) == 1:
+                raise PyRaise("KeyError")
+            return V("opaque", z3.Const(fresh_name("member"), opaque_sort("Any")), "Any")
         if base.k == "py":
             i = z3.simplify(self.as_int(idx)) if idx.k in ("int", "bool") else None
             if i is not None and z3.is_int_value(i):
@@ -1743,6 +1811,9 @@ class Engine:
             r = self.builtin_call(nm, n)
             if r is not None:
                 return r
+            fc = self.reg.function_contract(nm, getattr(self.x, "relpath", None))
+            if fc is not None:
+                return self.contract_call(fc, None, [self.ev(a) for a in n.args], n, {k.arg: self.ev(k.value) for k in n.keywords})
             sf = self.reg.spec_fn(nm) if self.spec_mode else None
             if sf is not None:
                 return sf.apply(self, [self.ev(a) for a in n.args])
@@ -1751,9 +1822,12 @@ class Engine:
             if cd is not None and cd.ctor is not None and d.split(".")[0] not in self.st.env:
                 return self.construct(cd, n)
         if d in ("struct.unpack", "struct.pack") and n.args and isinstance(n.args[0], ast.Constant):
-            if d == "struct.unpack":
-                return self.struct_unpack(n.args[0].value, self.ev(n.args[1]))
-            return self.struct_pack(n.args[0].value, [self.ev(a) for a in n.args[1:]])
+            fmt_ = n.args[0].value
+            floaty = any(ch in fmt_ for ch in "fde")
+            if not (floaty and d in self.c.externals):
+                if d == "struct.unpack":
+                    return self.struct_unpack(fmt_, self.ev(n.args[1]))
+                return self.struct_pack(fmt_, [self.ev(a) for a in n.args[1:]])
         if d is not None and d.endswith((".pack", ".unpack")) and d.rsplit(".", 1)[0] in self.c.consts \
                 and isinstance(self.c.consts[d.rsplit(".", 1)[0]], str):
             fmt = self.c.consts[d.rsplit(".", 1)[0]]       # a struct.Struct constant whose format is read from the live class
@@ -1821,6 +1895,8 @@ class Engine:
             return mk_bool(z3.Implies(a, b))
         if nm == "truthy":
             return mk_bool(self.truth(self.ev(n.args[0])))
+        if nm == "isa":
+            return self.isinstance_model(self.ev(n.args[0]), n.args[1].value)
         if nm == "defined":
             return mk_bool(n.args[0].value in self.st.env)
         if nm == "iff":
@@ -1851,6 +1927,11 @@ class Engine:
             return mk_int(self.st.ghost.get(g, z3.IntVal(0)))
         if nm == "ncalls":
             return self.pyval(len(self.st.calls.get(n.args[0].value, [])))
+        if nm in ("stored_value", "stored_key"):
+            recs = self.st.calls.get(n.args[0].value, [])
+            if not recs:
+                raise OutOfReach(f"{nm}: no store recorded for {n.args[0].value}")
+            return recs[-1]["value" if nm == "stored_value" else "key"]
         if nm == "called_with":
             # called_with("name", lambda a, b, ...: pred) : some recorded call satisfies pred (args by position)
             lam = n.args[1]
@@ -1965,6 +2046,10 @@ class Engine:
                     return self.inline_method(im, v, [], {})
             if v.k == "py":
                 return self.pyval(len(v.t))
+            if v.k == "opaque":
+                fn_ = z3.Function("len_" + v.cls, opaque_sort(v.cls), z3.IntSort())
+                self.assume(fn_(v.t) >= 0)
+                return mk_int(fn_(v.t))
             raise OutOfReach(f"{self.c.key}: len of {v.k}")
         if nm == "bytearray" or nm == "bytes":
             if not n.args:
@@ -2007,9 +2092,17 @@ class Engine:
                 return mk_int(int(v.t))
             if v.k == "opaque":
                 return V("opaque", z3.Const(fresh_name("int_of"), opaque_sort(v.cls)), v.cls)
+            if v.k == "str":
+                if not self.spec_mode and self.choose(f"intparse{getattr(n, 'lineno', 0) - self.x.lineno}", ["ok", "ValueError"]) == 1:
+                    raise PyRaise("ValueError")
+                return mk_int(z3.Int(fresh_name("parsed")))
             raise OutOfReach(f"int({v.k})")
         if nm == "float":
             v = self.ev(n.args[0])
+            if v.k in ("str", "opaque"):
+                if not self.spec_mode and self.choose(f"floatparse{getattr(n, 'lineno', 0) - self.x.lineno}", ["ok", "ValueError"]) == 1:
+                    raise PyRaise("ValueError")
+                return mk_float(z3.FP(fresh_name("parsed"), FP64))
             return mk_float(self.to_float(v))
         if nm == "round":
             v = self.ev(n.args[0])
@@ -2025,7 +2118,7 @@ class Engine:
             if isinstance(n.args[0], (ast.GeneratorExp, ast.ListComp)):
                 return self.comprehension(n.args[0])
             v = self.ev(n.args[0])
-            if v.k in ("tuple", "ilist"):
+            if v.k in ("tuple", "ilist", "opaque"):
                 return v
             raise OutOfReach(f"tuple({v.k})")
         if nm == "str":
@@ -2062,6 +2155,11 @@ class Engine:
         return None
 
     def isinstance_model(self, v: V, cls: str) -> V:
+        if v.k == "opt":
+            inner = self.isinstance_model(v.t[1], cls)
+            return mk_bool(z3.And(z3.Not(v.t[0]), inner.t))
+        if v.k == "none":
+            return mk_bool(False)
         table = {"int": ("int", "bool"), "bool": ("bool",), "bytes": ("bytes",), "float": ("float",), "str": ("str",),
                  "tuple": ("tuple",), "list": ("ilist",)}
         if cls == "RawBytes":
@@ -2134,6 +2232,25 @@ class Engine:
             raise OutOfReach(f"{self.c.key}: comprehension shape")
         gen = n.generators[0]
         S = self.ev(gen.iter)
+        if S.k in ("opaque", "str"):
+            # comprehension over an unmodelled iterable: the body is evaluated once on an arbitrary element (its calls may fork /
+            # raise), the result is an unmodelled sequence
+            tname_ = gen.target.id
+            saved_ = self.st.env.get(tname_)
+            self.st.env[tname_] = V("str", z3.String(fresh_name("elem"))) if S.cls == "StrList" or S.k == "str" else \
+                V("opaque", z3.Const(fresh_name("elem"), opaque_sort("Any")), "Any")
+            try:
+                for c_ in gen.ifs:
+                    self.ev(c_)
+                self.ev(n.elt)
+            finally:
+                if saved_ is None:
+                    self.st.env.pop(tname_, None)
+                else:
+                    self.st.env[tname_] = saved_
+            keep = isinstance(n.elt, ast.Name) and n.elt.id == tname_ and S.k == "opaque"
+            cls_ = S.cls if keep else "List"
+            return V("opaque", z3.Const(fresh_name("comp"), opaque_sort(cls_)), cls_)
         if S.k != "ilist":
             raise OutOfReach(f"{self.c.key}: comprehension over {S.k}")
         sa, sn, _ = S.t
@@ -2201,6 +2318,17 @@ class Engine:
             r = self.py_method(recv, meth, n)
             if r is not None:
                 return r
+        if recv.k == "str":
+            if meth in ("startswith", "endswith") and len(n.args) == 1:
+                a0 = self.ev(n.args[0])
+                if a0.k == "str":
+                    return mk_bool(z3.PrefixOf(a0.t, recv.t) if meth == "startswith" else z3.SuffixOf(a0.t, recv.t))
+            if meth in ("strip", "rstrip", "lstrip", "upper", "lower", "split"):
+                for a_ in n.args:
+                    self.ev(a_)
+                if meth == "split":
+                    return V("opaque", z3.Const(fresh_name("split"), opaque_sort("StrList")), "StrList")
+                return V("str", z3.String(fresh_name("s_" + meth)))       # an unspecified string (over-approximation)
         if recv.k == "bytes":
             if meth == "append":
                 x = self.as_int(self.ev(n.args[0]))
